@@ -37,9 +37,26 @@ def _emitted_lines(fn: Function) -> List[Tuple[str, ast.AST]]:
             t = template_of(c.args[0], fn.node)
             if t is not None:
                 out.append((t.text, c))
-        if isinstance(c.func, ast.Attribute) and c.func.attr == "append" and c.args and const_str(c.args[0]) is not None:
-            out.append((const_str(c.args[0]) or "", c))
+        if isinstance(c.func, ast.Attribute) and c.func.attr in ("append", "extend", "insert") and c.args:
+            # every literal that can become an element: `append("a=b")`, `append("a=b" if c else "a=None")`, `extend(["json=None", "data=None"])`
+            for x in ast.walk(c.args[-1]):
+                if isinstance(x, ast.Constant) and isinstance(x.value, str) and not _in_test(x, c.args[-1]):
+                    out.append((x.value, c))
+    for st in own_nodes(fn.node):
+        if isinstance(st, (ast.Assign, ast.AnnAssign)) and isinstance(st.value, (ast.List, ast.Tuple)):
+            for el in st.value.elts:
+                for x in ast.walk(el):
+                    if isinstance(x, ast.Constant) and isinstance(x.value, str) and not _in_test(x, el):
+                        out.append((x.value, st))
     return out
+
+
+def _in_test(const: ast.AST, root: ast.AST) -> bool:
+    """Is `const` part of the *condition* of a conditional expression (not one of its results)?"""
+    for n in ast.walk(root):
+        if isinstance(n, ast.IfExp) and any(x is const for x in ast.walk(n.test)):
+            return True
+    return False
 
 
 def run(repo: Repo, rep: Report, tier: str) -> None:
@@ -199,7 +216,10 @@ def run(repo: Repo, rep: Report, tier: str) -> None:
                 continue
             conj = g.ast.values if p is True and isinstance(g.ast, ast.BoolOp) and isinstance(g.ast.op, ast.And) else [g.ast]
             for cj in conj:
-                gtxt.append(("" if p else "not ") + norm(cj))
+                pj = p
+                while isinstance(cj, ast.UnaryOp) and isinstance(cj.op, ast.Not):
+                    cj, pj = cj.operand, not pj  # `not X` on the false branch is `X`
+                gtxt.append(("" if pj else "not ") + norm(cj))
                 ci = GL.inline(cj, stop=tuple(GL.params))
                 # allowed conditions: "the operation declares a request body" and tests of the content type against media-type literals
                 has_body = isinstance(ci, ast.Attribute) and ci.attr == "request_body"
@@ -209,7 +229,7 @@ def run(repo: Repo, rep: Report, tier: str) -> None:
                     isinstance(y, ast.Constant) and isinstance(y.value, str) and "/" in y.value for y in ast.walk(x)) for n in names_in(x) if GL.is_param(n)}
                 truthy_ct = isinstance(ci, ast.Name) and ci.id in ct_params
                 if not (has_body or media or truthy_ct):
-                    other.append(("" if p else "not ") + norm(cj))
+                    other.append(("" if pj else "not ") + norm(cj))
         sub = f"{rg.relpath}:generate_request_call `{lit}`"
         if other:
             rep.violation("R4.8", sub, f"{grc.fq}|body-extra-guard|{lit}|{other}",
